@@ -663,6 +663,15 @@ func (st *State) typeFact(term string, t types.Type) {
 	if !ok {
 		return
 	}
+	if _, isBasic := n.Underlying().(*types.Basic); isBasic {
+		// pointer to a named scalar type (protobuf enums, ...): it points to an object of that type, i.e. not into
+		// a field of a different type
+		main := "(or (= " + term + " null) (= (dyntype " + term + ") " + intLit(int64(st.e.typeTag(n))) + "))"
+		if !st.knows(main) {
+			st.assume(main)
+		}
+		return
+	}
 	if _, ok := n.Underlying().(*types.Struct); !ok {
 		return
 	}
@@ -681,7 +690,8 @@ func (st *State) typeFact(term string, t types.Type) {
 	for i := 0; i < stt.NumFields(); i++ {
 		tag := "0"
 		if fn, ok := stt.Field(i).Type().(*types.Named); ok {
-			if _, isS := fn.Underlying().(*types.Struct); isS {
+			switch fn.Underlying().(type) {
+			case *types.Struct, *types.Basic:
 				tag = intLit(int64(st.e.typeTag(fn)))
 			}
 		}
